@@ -108,6 +108,8 @@ class VCRuntime:
             return a[0].copy_as(bytes)
         if len(a) == 1 and isinstance(a[0], (bytes, bytearray)):
             return bytes(a[0])
+        if len(a) == 1 and hasattr(a[0], "sym_type") and a[0].sym_type() is bytes:
+            return a[0]
         if a and is_sym(a[0]):
             raise Unsupported(f"bytes({type(a[0]).__name__})")
         return bytes(*a)
@@ -377,6 +379,12 @@ class VCRuntime:
             return Not(x)
         return not x
 
+    def mkset(self, *elts):
+        """{a, b, ...}: a real set unless an element is symbolic (hash-based set semantics would be wrong)"""
+        if not any(is_sym(e) for e in elts):
+            return set(elts)
+        return stubs.SmallSet(list(elts))
+
     def super_(self, obj):
         """zero-argument super(): methods come from the unit as 'super.<name>' entries of the object"""
         from .values import methods as _methods
@@ -401,6 +409,9 @@ class VCRuntime:
 
         if isinstance(o, _re.Pattern) and args and isinstance(args[0], _text.SText):
             return _text.regex_call(o, name, args, kw)
+        if o is _re and name in ("fullmatch", "match", "search") and len(args) >= 2 and isinstance(args[1], _text.SText):
+            pat = args[0] if isinstance(args[0], _re.Pattern) else _re.compile(args[0], *args[2:])
+            return _text.regex_call(pat, name, (args[1],), kw)
         if isinstance(o, (bytes, bytearray, str)) and (any(is_sym(a) or _has_sym(a) for a in args)):
             if any(isinstance(a, _text.SText) or (isinstance(a, (list, tuple)) and any(isinstance(x, _text.SText) for x in a))
                    for a in args):
@@ -434,6 +445,12 @@ class VCRuntime:
         info = u.fn_infos[self.fn_id]
         linfo = info.loops[k]
         tag = f"{self.fn_id}.loop{k}"
+        if spec.unroll:
+            # bounded, concrete control: the loop runs natively (used when the iteration space is concrete,
+            # e.g. a list of known length); `bound` guards against runaway iteration
+            c.loop_counts = getattr(c, "loop_counts", {})
+            c.loop_counts[(self.fn_id, k)] = 0
+            return {}
         if spec.first_iteration:
             if spec.at_head is not None:
                 spec.at_head(dict(L))
@@ -476,6 +493,13 @@ class VCRuntime:
         c = ctx()
         spec = self._spec(k)
         tag = f"{self.fn_id}.loop{k}"
+        if spec is not None and spec.unroll:
+            c.loop_counts[(self.fn_id, k)] = n = c.loop_counts.get((self.fn_id, k), 0) + 1
+            if n > (spec.bound or 64):
+                raise EngineError(f"{tag}: unrolled loop exceeded its bound {spec.bound or 64}")
+            if spec.at_back is not None:
+                spec.at_back(L)
+            return None
         if spec is not None and spec.at_back is not None:
             spec.at_back(L)
         for nm, cond in _inv_items(spec, L):
